@@ -67,7 +67,7 @@ def make_stubs(ctx, rec, widths, ortho):
                 c[i, i] = cell[i] if cell is not None else widths[i]
             object.__setattr__(self, '_cell', c)
             object.__setattr__(self, 'positions', [0, 1])
-            object.__setattr__(self, 'atom_type_elements', ['C', 'Zr'])
+            object.__setattr__(self, 'atom_type_elements', ['S', 'Zr', 'B', 'I'])
 
         @classmethod
         def load(cls, path):
@@ -242,8 +242,11 @@ def check_flow(ctx, p, calls, inp, outp, atol, frac, hints, reps, mic, widths, o
         ctx.require('--mic on a non-orthorhombic cell replicates nothing', names.count('replicate') == (1 if reps is not None else 0))
     if p.get('pp'):
         ctx.require('--pp assigns pair coefficients and labels to the structure before find/replace',
-                    any(c[0] == 'set' and c[1] == cur and c[2] == 'pair_coeffs' and len(c[3]) == 2 for c in calls)
+                    any(c[0] == 'set' and c[1] == cur and c[2] == 'pair_coeffs' and len(c[3]) == 4 for c in calls)
                     and any(c[0] == 'set' and c[1] == cur and c[2] == 'atom_type_labels' for c in calls))
+        labs = [c[3] for c in calls if c[0] == 'set' and c[2] == 'atom_type_labels']
+        ctx.require("--pp labels every type with a UFF key of ITS OWN element (element symbol padded with '_')",
+                    bool(labs) and [l[0:2].strip('_') for l in labs[0]] == ['S', 'Zr', 'B', 'I'], detail=dict(labels=str(labs[:1])))
     else:
         ctx.require('pair coefficients untouched without --pp', not any(c[0] == 'set' and c[2] == 'pair_coeffs' for c in calls))
     if p.get('find') and p.get('repl'):
